@@ -1535,7 +1535,7 @@ func (r *c07Runner) randInv(k int, rng *RNG) c07Inv {
 
 func c07_runC07(e *Env) {
 	r := &c07Runner{e: e, refs: map[string]c07Ref{}}
-	e.R.Rule = "case = one history (list of Run/RunCode/Call invocations with behaviour, depth, pending operands, global appends, context kind, the placements of cancel(ctx_i) of earlier contexts before/during each later invocation, which context OBJECT it is handed (its own, a named one shared with other invocations, the one of an earlier invocation - possibly cancelled mid-run earlier, while the VM was idle, or before its first use), whether RunCode re-supplies the *compiler.Code object of an earlier invocation (runcode@j) and which code objects the host has compiled further snippets into before the invocation (grows), whether the script imports a global module and/or a file module through the VM's importer and whether the run ends inside that module's top-level code (imp 2m/3m); pending operands = the measured maximum make the invocation a stack-headroom probe) ; the LAYOUT of the globals of the code object compiled for the invocation (lay: which global names it is compiled with, how many functions and variables are defined before act/over/who, in which order - so that ONE name lives in different slots of the code objects the VM runs one after the other; RunCode and the definitions a Call loads use the same names act/over/who/f<i>/g<i> in every code object) and the NAMES the host looks up with vm.Get before (lkpre) and after (lkpost) the invocation, besides the function every Call fetches by name) executed on ONE real VM; every invocation is compared with the Lean Impl model (outcome + sp, fp, halt, running, startCount, halt before start, fp at the leaf, len(vm.modules), leaf reached, module code executed, every answer of vm.Get - no active code / not found / unset slot / the host's own object / the function of which code object / the integer -, vm.GlobalNames() in slot order, the name a Call fetches) and with the same invocation on a fresh VM with the same globals and importer, a code object with the same CURRENT contents and a context in the same state (Spec: outcome, the answer to every look-up made after an invocation that loads code, vm.GlobalNames(); after a Call into code an earlier invocation loaded every name must resolve as before the Call); where the code leaves the order to the Go scheduler (the watcher of an already cancelled context) the run is held at its first instruction until the watcher has exited and the observed schedule is given to the model; after the history the result objects of all earlier successful invocations must still read as they did when returned (Spec), and the host global holds exactly the appends of the invocations that reached their leaf (Impl). SECOND FAMILY (data-globals ...): histories of RunCode invocations on a VM whose host globals `data`/`cfg` are plain Go data ([]any/map[string]any or []int64/map[string]int64, supplied at construction or with the first RunCode) converted by copy: each script updates its copy in place (append / decrement) before and after the point where it ends with a value, a runtime error at depth or a recovered panic, and each RunCode is handed no options, WithConcurrency only, or WithGlobals again (same or changed data); what the script read last, what vm.Get finds afterwards and the host's own Go data are compared with the Lean model (dRunCode) and with the same invocation on a fresh VM constructed with the host's current data (Spec dSpecAt); non-trivial = an earlier invocation updated its copy. distinct = canonical history text; non-trivial = length >= 2 and at least one abnormal ending, cancellation of a context, shared/named context, re-supplied or grown code object, file-module import, headroom probe, non-default layout or look-up by name"
+	e.R.Rule = "case = one history (list of Run/RunCode/Call invocations with behaviour, depth, pending operands, global appends, context kind, the placements of cancel(ctx_i) of earlier contexts before/during each later invocation, which context OBJECT it is handed (its own, a named one shared with other invocations, the one of an earlier invocation - possibly cancelled mid-run earlier, while the VM was idle, or before its first use), whether RunCode re-supplies the *compiler.Code object of an earlier invocation (runcode@j) and which code objects the host has compiled further snippets into before the invocation (grows), whether the script imports a global module and/or a file module through the VM's importer and whether the run ends inside that module's top-level code (imp 2m/3m); pending operands = the measured maximum make the invocation a stack-headroom probe) ; the LAYOUT of the globals of the code object compiled for the invocation (lay: which global names it is compiled with, how many functions and variables are defined before act/over/who, in which order - so that ONE name lives in different slots of the code objects the VM runs one after the other; RunCode and the definitions a Call loads use the same names act/over/who/f<i>/g<i> in every code object) and the NAMES the host looks up with vm.Get before (lkpre) and after (lkpost) the invocation, besides the function every Call fetches by name) executed on ONE real VM; every invocation is compared with the Lean Impl model (outcome + sp, fp, halt, running, startCount, halt before start, fp at the leaf, len(vm.modules), leaf reached, module code executed, every answer of vm.Get - no active code / not found / unset slot / the host's own object / the function of which code object / the integer -, vm.GlobalNames() in slot order, the name a Call fetches) and with the same invocation on a fresh VM with the same globals and importer, a code object with the same CURRENT contents and a context in the same state (Spec: outcome, the answer to every look-up made after an invocation that loads code, vm.GlobalNames(); after a Call into code an earlier invocation loaded every name must resolve as before the Call); where the code leaves the order to the Go scheduler (the watcher of an already cancelled context) the run is held at its first instruction until the watcher has exited and the observed schedule is given to the model; after the history the result objects of all earlier successful invocations must still read as they did when returned (Spec), and the host global holds exactly the appends of the invocations that reached their leaf (Impl). SECOND FAMILY (data-globals ...): histories of RunCode invocations on a VM whose host globals `data`/`cfg` are plain Go data ([]any/map[string]any or []int64/map[string]int64, supplied at construction or with the first RunCode) converted by copy: each script updates its copy in place (append / decrement) before and after the point where it ends with a value, a runtime error at depth or a recovered panic, and each RunCode is handed no options, WithConcurrency only, or WithGlobals again (same or changed data); what the script read last, what vm.Get finds afterwards and the host's own Go data are compared with the Lean model (dRunCode) and with the same invocation on a fresh VM constructed with the host's current data (Spec dSpecAt); non-trivial = an earlier invocation updated its copy. THIRD FAMILY (kept-objects ...): histories of RunCode (of one of 1-3 code objects - the same again, another, one the host has compiled a further snippet into; ending with a value, a runtime error, or the panic of a fired foreign callback), vm.Get-and-keep of a function, a closure or a list, vm.Call of a kept object, vm.Get-then-Call, reads of kept lists; a callback is registered through the host builtin reg in every run and the host builtin fire calls a kept object from inside a running script; the functions read and write a global and append to a global list; every result and vm.Get(x)/vm.Get(items) afterwards are compared with the Lean model (kStep) and with a replay on a fresh VM of the invocations since the last RunCode in which kept functions of the loaded code are fetched again by name (Spec kSpecRes); non-trivial = an object made in an earlier load than the current one is called. distinct = canonical history text; non-trivial = length >= 2 and at least one abnormal ending, cancellation of a context, shared/named context, re-supplied or grown code object, file-module import, headroom probe, non-default layout or look-up by name"
 	t0 := time.Now()
 	defer func() {
 		if c07ModDir != "" {
@@ -1563,6 +1563,9 @@ func c07_runC07(e *Env) {
 
 	// 0D. host DATA globals converted by copy (c07data.go)
 	c07RunData(e)
+
+	// 0K. objects the host keeps across invocations (c07kept.go)
+	c07RunKept(e)
 
 	// 0a. the smallest history that re-supplies a code object: the probe, then the probe's own
 	// *compiler.Code again
